@@ -17,6 +17,15 @@ PROPS = {
                    '(dict-accumulating loops / mixed integer-real nonlinear arithmetic exceed the solver budget)'],
         bounded=[DT_BOUNDED('C01')],
     ),
+    'C03': dict(
+        contract_files=['contracts/datatypes.py'],
+        level='proof',
+        trusted_base=COMMON_TRUSTED,
+        uncovered=['rebuild get_datatype(export_datatype(dt)) and copy(): bounded stand-in only so far (class-level property tables)',
+                   'compatible() of enum/blob/string/array/tuple/struct/command: bounded stand-in only',
+                   'units with $ substitution'],
+        bounded=[DT_BOUNDED('C03')],
+    ),
     'C02': dict(
         contract_files=['contracts/datatypes.py'],
         level='proof',
